@@ -824,6 +824,18 @@ func (vfs *OrefaFS) Rename(oldname, newname string) error {
 		defer oParent.mu.Unlock()
 	}
 
+	if nChildOk {
+		if nChild == oChild {
+			// oldname and newname are hard links to the same file: nothing to do.
+			return nil
+		}
+
+		// the replaced file loses one link.
+		nChild.mu.Lock()
+		nChild.remove()
+		nChild.mu.Unlock()
+	}
+
 	nParent.addChild(nFileName, oChild)
 
 	delete(oParent.children, oFileName)
